@@ -208,6 +208,8 @@ def sym(prog, raw_sites=frozenset(), path=()):
         args = [sym(c, raw_sites, path + (i + 2,)) for i, c in enumerate(prog[2:])]
         if prog[1] == "kw":
             return p.Variable("g")(args[0], k=args[1])
+        if prog[1] == "kw2":    # several keywords, NOT in alphabetical order (PEP 468)
+            return p.Variable("h")(args[0], zeta=args[1], alpha=args[0], mid=2)
         return p.Variable("f")(*args)
     if k == "index":
         return p.Variable("a")[sym(prog[1], raw_sites, path + (1,))]
@@ -269,7 +271,7 @@ def num(prog, env, exact=False, fold=None, path=()):
                 return a
             if prog[1] == "%" and b == 1:
                 return 0
-            if prog[1] == "**" and a == 0 and not isinstance(a, bool):
+            if prog[1] == "**" and a == 0:
                 return 0
         if prog[1] == "**":
             refsem._pow(a, b) if _rat(a) and _rat(b) else None    # refuses 10**6-bit results
@@ -289,6 +291,8 @@ def num(prog, env, exact=False, fold=None, path=()):
         args = [num(c, env, exact, fold, path + (i + 2,)) for i, c in enumerate(prog[2:])]
         if prog[1] == "kw":
             return env["g"](args[0], k=args[1])
+        if prog[1] == "kw2":
+            return env["h"](args[0], zeta=args[1], alpha=args[0], mid=2)
         return env["f"](*args)
     if k == "index":
         return env["a"][num(prog[1], env, exact, fold, path + (1,))]
@@ -643,7 +647,7 @@ def rand_prog(rng, d, need_expr=True):
         op = rng.choice(["and_", "or_", "not_"])
         return ("logic", op, rand_prog(rng, d - 1, True), rand_prog(rng, d - 1, False))
     if u < 0.94:
-        return ("call", rng.choice(["pos", "kw"]), rand_prog(rng, d - 1, False), rand_prog(rng, d - 1, False))
+        return ("call", rng.choice(["pos", "kw", "kw2"]), rand_prog(rng, d - 1, False), rand_prog(rng, d - 1, False))
     if u < 0.96:
         return ("index", ("bin", "%", rand_prog(rng, d - 1, True), ("leaf", "2")))
     if u < 0.98:
